@@ -127,6 +127,10 @@ def onl_frame(exc):
 def crash(clause, exc, extra=""):
     """Turn an exception escaping code under test into a Violation with a root-cause signature."""
     where = onl_frame(exc)
+    if where == "?":
+        # no frame of the tree under test is involved: the harness itself is at fault
+        tb = "".join(traceback.format_exception(type(exc), exc, exc.__traceback__))
+        return HarnessError(f"exception without any onl frame during {clause} {extra}:\n{tb}")
     sig = f"{clause}/crash/{type(exc).__name__}@{where}"
     return Violation(clause, f"{type(exc).__name__}({exc}) at {where} {extra}".strip(), sig)
 
